@@ -146,7 +146,18 @@ def _schemas(dname, nperm, seed):
         if comps is None or len(comps) < 2:
             break
         ch = list(comps)
-        rng.shuffle(ch)
+        # structured declaration orders first (a component declared before / after / between the ones it includes),
+        # then random shuffles
+        if k == 0:
+            ch.reverse()
+        elif k == 1:
+            ch.sort(key=lambda c: c.attrib.get("name", ""))
+        elif k == 2:
+            ch.sort(key=lambda c: c.attrib.get("name", ""), reverse=True)
+        elif k == 3:
+            ch = ch[1::2] + ch[0::2]
+        else:
+            rng.shuffle(ch)
         for c in list(comps):
             comps.remove(c)
         for c in ch:
@@ -210,11 +221,11 @@ def run(ctx):
             def has_req_nested(ms, inside=False):
                 return any(x["k"] == "g" and ((inside and x["req"]) or has_req_nested(x["members"], True)) for x in ms)
             reqn = [m for m in mts if has_req_nested(d["messages"][m]["members"])]      # a required group inside a group item
-            mts = sorted(set(sess + rng.sample(mts, min(6 if dname == "FIX44" else 4, len(mts))) + rng.sample(reqg, min(3, len(reqg)))
+            mts = sorted(set(sess + [m for m in ("D", "8") if m in mts] + rng.sample(mts, min(6 if dname == "FIX44" else 4, len(mts))) + rng.sample(reqg, min(3, len(reqg)))
                              + rng.sample(reqn, min(2, len(reqn)))))
         recs = []
         n = 0
-        nperm = (2 if q else 6)
+        nperm = (6 if q else 12)
         for mt in mts:
             members = d["messages"][mt]["members"]
             base = {"dict": dname, "mt": mt, "nperm": nperm, "seed": ctx.seed}
